@@ -23,6 +23,14 @@ type VT struct {
 	Hook func(tag string)
 }
 
+// VT is also an external configurator (like the industrial token, which is both a token and an
+// externally configured contract): it accepts any external configuration and applies nothing. What
+// matters is that a contract implementing BOTH interfaces has BOTH sections validated.
+func (t *VT) ValidateExtConfig(_ []byte) error { return nil }
+
+// ApplyExtConfig: nothing to apply.
+func (t *VT) ApplyExtConfig(_ []byte) error { return nil }
+
 func (t *VT) hook(tag string) {
 	if t.Hook != nil {
 		t.Hook(tag)
